@@ -39,6 +39,10 @@ def pool():
         Path(CubicBezier(0.1 + 0.2j, 1.3 + 0.7j, 0.9 + 2.1j, -0.4 + 1.7j), CubicBezier(-0.4 + 1.7j, -1.7 + 1.3j, 1e-07 + 2j, 3 + 3j)),
         Path(Arc(2 + 3j, 3 + 2j, 25, 1, 0, 6 + 5j)),
         parse_path('M 1 1 L 5 2 L 4 6 z M 10 10 C 11 12 13 12 14 10 L 20 10'),
+        # a drawing a thousand million times smaller: two sub-paths, an arc among them
+        Path(Line(0j, 3e-10 + 4e-10j), Arc(3e-10 + 4e-10j, 3e-10 + 2e-10j, 25, 1, 0, 6e-10 + 5e-10j), Line(7e-10 + 5e-10j, 9e-10 + 1e-10j)),
+        # an ordinary-size drawing a million units from the origin: sub-paths separated by gaps of 2 and 0.001 units
+        Path(Line(1e6 + 1e6j, 1e6 + 3 + 1e6j), Line(1e6 + 5 + 1e6j, 1e6 + 9 + (1e6 + 2) * 1j), QuadraticBezier(1e6 + 9.001 + (1e6 + 2) * 1j, 1e6 + 12 + 1e6j, 1e6 + 15 + (1e6 + 3) * 1j)),
     ]
 
 
